@@ -1,5 +1,6 @@
-(* C02 - the hypothesis of `from_bytes_total` discharged: the text loaders of Model/C02Text.v never panic, except in the
-   macro-nesting overflow (Known 2 = C01's known class reached through a file) and with an insane sixel oracle (Known 3). *)
+(* C02 - the hypothesis of `from_bytes_total` discharged: the text loaders of Model/C02Text.v never panic, except with an insane
+   sixel oracle (Known 3).  (The former Known 2, the macro-nesting overflow = C01's known class reached through a file, is repaired by the
+   nesting limit MAX_MACRO_NESTING, fix 2513579: the predicates MacroCrash / FileMacroCrash are gone, the statements lost the exception.) *)
 From Coq Require Import NArith ZArith Bool List Lia.
 From IE Require Import Lib.Tbl Lib.C05Lib Lib.C02Lib Gen.C02Ext Model.C05Buf Model.C02Dispatch Model.C02Text
   Proofs.C02Proofs Proofs.C02DispatchProofs.
@@ -10,34 +11,22 @@ Local Open Scope Z_scope.
 Lemma fs_of_nonneg s : sauce_nonneg s -> FileLoadProofs.fsauce_nonneg (fs_of s).
 Proof. destruct s; cbn; auto. Qed.
 
-(* Known 2: the file stores a macro that (transitively) invokes itself - the text loader runs into the nesting bound of the
-   model; the real parser recurses until the stack is gone (C01-stackoverflow:invoke_macro_by_id) *)
-Definition MacroCrash (conv : list N -> list Z) (f : fmt) (content : list N) (s : option sauce) : Prop :=
-  exists tf, tfmt_of f = Some tf /\ FileLoadProofs.text_overflow tf (fs_of s) (conv content).
 (* not Known 3: whatever the sixel oracle reports is harmless (no sixel, or font 0 at least 1 x 1 and every pixel rectangle inside i32) *)
 Definition SaneOracle (sixels : sixel_oracle) : Prop :=
   forall f content s, let '(fw, fh, done, _) := sixels f content s in FileLoadProofs.SixelOk fw fh done.
 
 Lemma text_load_model_total conv sixels f content s :
-  SaneOracle sixels -> sauce_nonneg s -> text_load_model conv sixels f content s = OPanic -> MacroCrash conv f content s.
+  SaneOracle sixels -> sauce_nonneg s -> text_load_model conv sixels f content s <> OPanic.
 Proof.
-  intros Ho Hs. unfold text_load_model, MacroCrash. destruct (tfmt_of f) as [tf|] eqn:Ef; [|discriminate].
+  intros Ho Hs. unfold text_load_model. destruct (tfmt_of f) as [tf|] eqn:Ef; [|discriminate].
   specialize (Ho f content s). destruct (sixels f content s) as [[[fw fh] done] serr].
   pose proof (FileLoadProofs.text_load_total_proof tf (fs_of s) fw fh done serr (conv content) (fs_of_nonneg s Hs) Ho) as G.
-  destruct (FileLoad.text_load tf (fs_of s) fw fh done serr (conv content)); intro H; [discriminate|discriminate|contradiction|].
-  exists tf. split; [reflexivity|exact G].
+  destruct (FileLoad.text_load tf (fs_of s) fw fh done serr (conv content)); intro H; [discriminate|discriminate|contradiction].
 Qed.
-(* formats without an ANSI parser inside cannot overflow: ASCII, PETSCII, ATASCII files always load *)
+(* (kept: the special case for the formats without an ANSI parser inside: ASCII, PETSCII, ATASCII) *)
 Lemma text_load_model_standalone conv sixels f content s :
   SaneOracle sixels -> sauce_nonneg s -> (f = FAsc \/ f = FSeq \/ f = FAta) -> text_load_model conv sixels f content s <> OPanic.
-Proof.
-  intros Ho Hs Hf. unfold text_load_model.
-  assert (exists tf, tfmt_of f = Some tf /\ (tf = FileLoad.TAsc \/ tf = FileLoad.TSeq \/ tf = FileLoad.TAta)) as (tf & Ef & Ht)
-    by (destruct Hf as [->|[->| ->]]; eexists; split; try reflexivity; auto).
-  rewrite Ef. specialize (Ho f content s). destruct (sixels f content s) as [[[fw fh] done] serr].
-  destruct (FileLoadProofs.text_load_standalone_total tf (fs_of s) fw fh done serr (conv content) Ht (fs_of_nonneg s Hs) Ho) as [(t & l & E)|E];
-    rewrite E; discriminate.
-Qed.
+Proof. intros Ho Hs _. apply text_load_model_total; assumption. Qed.
 
 Section Dispatch.
   Variable dp : list N -> option Sauce.ymd.
@@ -47,19 +36,15 @@ Section Dispatch.
   Variable font_ok pal_ok sauce_ok : list N -> bool.
   Hypothesis sane : SaneOracle sixels.
 
-  (* Known 2 at the level of the file *)
-  Definition FileMacroCrash (ext bytes : list N) : Prop :=
-    exists content m, Sauce.split dp bytes = Sauce.Ok (content, m) /\ MacroCrash conv (fmt_of_ext ext) content (option_map view m).
-
   Lemma load_fmt_text_total f content s : sauce_nonneg s ->
-    load_fmt (text_load_model conv sixels) icy_chunks font_ok pal_ok sauce_ok f content s = OPanic -> MacroCrash conv f content s.
+    load_fmt (text_load_model conv sixels) icy_chunks font_ok pal_ok sauce_ok f content s <> OPanic.
   Proof.
     intros Hs H.
     destruct (is_text f) eqn:Et.
     - assert (E : load_fmt (text_load_model conv sixels) icy_chunks font_ok pal_ok sauce_ok f content s = text_load_model conv sixels f content s)
         by (destruct f; try discriminate Et; reflexivity).
       rewrite E in H. eapply text_load_model_total; eauto.
-    - exfalso. revert H. destruct f; try discriminate Et; cbn [load_fmt].
+    - revert H. destruct f; try discriminate Et; cbn [load_fmt].
       + destruct (icy_chunks content); [apply cls_total, C02IcyProofs.run_chunks_total|discriminate].
       + apply cls_total, idf_total.
       + apply cls_total, bin_total, Hs.
@@ -68,27 +53,17 @@ Section Dispatch.
       + apply cls_total, adf_total.
   Qed.
 
-  Lemma from_bytes_crash_is_macro ext bytes :
-    from_bytes dp (text_load_model conv sixels) icy_chunks font_ok pal_ok sauce_ok ext bytes = OPanic -> FileMacroCrash ext bytes.
-  Proof.
-    unfold from_bytes, FileMacroCrash. pose proof (SauceProofs.split_total_proof dp bytes) as Ht.
-    destruct (Sauce.split dp bytes) as [[c m]|e|s] eqn:E; [|discriminate|contradiction].
-    intro H. exists c, m. split; [reflexivity|]. eapply load_fmt_text_total; [|exact H]. eapply split_sauce_nonneg, E.
-  Qed.
+  (* Buffer::from_bytes, every extension, every byte string: never a crash *)
   Lemma from_bytes_total_unconditional ext bytes :
-    ~ FileMacroCrash ext bytes -> from_bytes dp (text_load_model conv sixels) icy_chunks font_ok pal_ok sauce_ok ext bytes <> OPanic.
-  Proof. intros N H. apply N, from_bytes_crash_is_macro, H. Qed.
-  (* extensions that resolve to a loader without an ANSI parser inside: no exception at all *)
+    from_bytes dp (text_load_model conv sixels) icy_chunks font_ok pal_ok sauce_ok ext bytes <> OPanic.
+  Proof.
+    unfold from_bytes. pose proof (SauceProofs.split_total_proof dp bytes) as Ht.
+    destruct (Sauce.split dp bytes) as [[c m]|e|s] eqn:E; [|discriminate|contradiction].
+    apply load_fmt_text_total. eapply split_sauce_nonneg, E.
+  Qed.
+  (* (kept: the special case of the extensions that resolve to a loader without an ANSI parser inside) *)
   Lemma from_bytes_no_ansi_total ext bytes :
     (fmt_of_ext ext = FAsc \/ fmt_of_ext ext = FSeq \/ fmt_of_ext ext = FAta \/ is_text (fmt_of_ext ext) = false) ->
     from_bytes dp (text_load_model conv sixels) icy_chunks font_ok pal_ok sauce_ok ext bytes <> OPanic.
-  Proof.
-    intros Hf H. destruct (from_bytes_crash_is_macro ext bytes H) as (c & m & _ & tf & Etf & Ho).
-    unfold FileLoadProofs.text_overflow in Ho.
-    destruct Hf as [E|[E|[E|E]]].
-    - rewrite E in Etf. inversion Etf; subst tf. cbn in Ho. destruct Ho as (Hw & _). discriminate Hw.
-    - rewrite E in Etf. inversion Etf; subst tf. exact Ho.
-    - rewrite E in Etf. inversion Etf; subst tf. exact Ho.
-    - destruct (fmt_of_ext ext); cbn in E, Etf; first [discriminate E|discriminate Etf].
-  Qed.
+  Proof. intros _. apply from_bytes_total_unconditional. Qed.
 End Dispatch.
